@@ -232,6 +232,9 @@ func (ex *Exec) execInstr(fr *Frame, st *State, in ssa.Instruction) {
 		p := ex.newObj()
 		st.heap.mapInitEmpty(p, x.Type().Underlying().(*types.Map))
 		fr.regs[x] = p
+		if privateMap(x) {
+			ex.privMaps = append(ex.privMaps, privMap{p, x.Type().Underlying().(*types.Map)})
+		}
 	case *ssa.MakeSlice:
 		ln := ex.term(fr, x.Len)
 		cp := ex.term(fr, x.Cap)
@@ -914,7 +917,7 @@ func privateCell(a *ssa.Alloc) bool {
 	return ok(a, 0)
 }
 
-// preservingPrivate runs a heap havoc and then restores the private cells.
+// preservingPrivate runs a heap havoc and then restores the private cells and private maps.
 func (ex *Exec) preservingPrivate(st *State, havoc func()) {
 	type saved struct {
 		c privCell
@@ -924,10 +927,89 @@ func (ex *Exec) preservingPrivate(st *State, havoc func()) {
 	for _, c := range ex.private {
 		sv = append(sv, saved{c, st.heap.load(c.p, c.t, nil)})
 	}
+	type savedMap struct {
+		name string
+		p    *Term
+		v    *Term
+	}
+	var sm []savedMap
+	for _, m := range ex.privMaps {
+		ks := mapKeySort(m.t)
+		dn, ds := mdomName(ks)
+		sm = append(sm, savedMap{dn, m.p, Select(st.heap.array(dn, ds), m.p)})
+		for _, l := range typeLeaves(m.t.Elem(), "", nil) {
+			n, s := mvalName(ks, l.path, l.sort)
+			sm = append(sm, savedMap{n, m.p, Select(st.heap.array(n, s), m.p)})
+		}
+		sm = append(sm, savedMap{mlenName, m.p, Select(st.heap.array(mlenName, mlenSort), m.p)})
+	}
 	havoc()
 	for _, s := range sv {
 		st.heap.store(s.c.p, s.c.t, s.v)
 	}
+	for _, s := range sm {
+		st.heap.set(s.name, Store(st.heap.array(s.name, knownArrays[s.name]), s.p, s.v))
+	}
+}
+
+type privMap struct {
+	p *Term
+	t *types.Map
+}
+
+// privateMap: a map created here whose reference never leaves the function: it is only used for
+// lookups, updates, range, len/delete, stored in a non-escaping local variable, or passed to a
+// modelled pure library function. No callee can reach it.
+func privateMap(m *ssa.MakeMap) bool {
+	holders := []ssa.Value{m}
+	seen := map[ssa.Value]bool{m: true}
+	for len(holders) > 0 {
+		v := holders[0]
+		holders = holders[1:]
+		refs := v.Referrers()
+		if refs == nil {
+			return false
+		}
+		for _, r := range *refs {
+			switch x := r.(type) {
+			case *ssa.MapUpdate:
+				if x.Map != v {
+					return false
+				}
+			case *ssa.Lookup:
+				if x.X != v {
+					return false
+				}
+			case *ssa.Range, *ssa.DebugRef:
+			case *ssa.Store:
+				if x.Val != v {
+					continue
+				}
+				a, ok := x.Addr.(*ssa.Alloc)
+				if !ok || a.Heap {
+					return false
+				}
+				// every load of that local may hold the map
+				for _, ar := range *a.Referrers() {
+					if u, ok := ar.(*ssa.UnOp); ok && !seen[u] {
+						seen[u] = true
+						holders = append(holders, u)
+					}
+				}
+			case *ssa.Call:
+				if b, ok := x.Call.Value.(*ssa.Builtin); ok && (b.Name() == "len" || b.Name() == "delete") {
+					continue
+				}
+				if f := x.Call.StaticCallee(); f != nil && pureModel(ssaFullName(f)) {
+					continue
+				}
+				return false
+			default:
+				return false
+			}
+		}
+	}
+	return true
 }
 
 
